@@ -10,13 +10,13 @@ require (
 	github.com/btcsuite/btcd/chaincfg/chainhash v1.1.0
 	github.com/vulpemventures/fastsha256 v0.0.0-20160815193821-637e65642941
 	github.com/vulpemventures/go-elements v0.0.0
+	github.com/vulpemventures/go-secp256k1-zkp v1.1.6
 )
 
 require (
 	github.com/btcsuite/btclog v0.0.0-20170628155309-84c8d2346e9f // indirect
 	github.com/decred/dcrd/crypto/blake256 v1.0.1 // indirect
 	github.com/decred/dcrd/dcrec/secp256k1/v4 v4.3.0 // indirect
-	github.com/vulpemventures/go-secp256k1-zkp v1.1.6 // indirect
 	golang.org/x/crypto v0.23.0 // indirect
 )
 
